@@ -7,7 +7,7 @@
 set -u
 pid="$1"; n="$2"; needs="${3:-see notes}"
 PID="$(echo "$pid" | tr a-z A-Z)"
-wt="/tmp/seed-$pid"; out="${4:-/tmp/seed-out/$pid}"; store="${5:-$n}"
+wt="${SEED_WT_BASE:-/tmp/seed}-$pid"; out="${4:-/tmp/seed-out/$pid}"; store="${5:-$n}"
 export CARGO_TARGET_DIR="$wt/target"
 cd "$wt" || exit 2
 git checkout -q -- . ; git clean -fdq -e target
